@@ -43,6 +43,7 @@ SessionObject::SessionObject(SessionObjectStore* inParent, CK_SLOT_ID inSlotID, 
 	objectMutex = MutexFactory::i()->getMutex();
 	valid = (objectMutex != NULL);
 	parent = inParent;
+	inTransaction = false;
 }
 
 // Destructor
@@ -295,21 +296,68 @@ void SessionObject::discardAttributes()
 		delete i->second;
 		i->second = NULL;
 	}
+
+	discardSavedAttributes();
+	inTransaction = false;
 }
 
-// These functions are just stubs for session objects
+// Discard the copy taken by startTransaction
+void SessionObject::discardSavedAttributes()
+{
+	for (std::map<CK_ATTRIBUTE_TYPE, OSAttribute*>::iterator i = savedAttributes.begin(); i != savedAttributes.end(); i++)
+	{
+		delete i->second;
+	}
+
+	savedAttributes.clear();
+}
+
+// A session object lives in memory only: a transaction keeps a copy of the
+// attributes so that a rejected change can be undone
 bool SessionObject::startTransaction(Access)
 {
+	MutexLocker lock(objectMutex);
+
+	if (inTransaction) return true;
+
+	for (std::map<CK_ATTRIBUTE_TYPE, OSAttribute*>::iterator i = attributes.begin(); i != attributes.end(); i++)
+	{
+		if (i->second != NULL)
+		{
+			savedAttributes[i->first] = new OSAttribute(*(i->second));
+		}
+	}
+
+	inTransaction = true;
+
 	return true;
 }
 
 bool SessionObject::commitTransaction()
 {
+	MutexLocker lock(objectMutex);
+
+	discardSavedAttributes();
+	inTransaction = false;
+
 	return true;
 }
 
 bool SessionObject::abortTransaction()
 {
+	MutexLocker lock(objectMutex);
+
+	if (!inTransaction) return true;
+
+	for (std::map<CK_ATTRIBUTE_TYPE, OSAttribute*>::iterator i = attributes.begin(); i != attributes.end(); i++)
+	{
+		delete i->second;
+	}
+
+	attributes = savedAttributes;
+	savedAttributes.clear();
+	inTransaction = false;
+
 	return true;
 }
 
